@@ -66,11 +66,37 @@ from .sym import (
 
 
 class SFloat(object):
-    """float(s) of an abstract string: real value + non-finite flag"""
+    """an abstract float (float(s) of an abstract string or arithmetic on it): z3 Real value
+    + a flag for nan/inf; arithmetic is over the reals (double rounding of abstract operands is
+    not modelled: results are only compared, never reported)"""
 
     def __init__(self, z, nonfinite):
         self.z = z
         self.nonfinite = nonfinite
+
+
+def float_real(v):
+    """z3 Real term of a concrete / finite-choice / abstract float, plus non-finite condition"""
+    from fractions import Fraction as _F
+
+    if isinstance(v, SFloat):
+        return v.z, v.nonfinite
+    if isinstance(v, bool):
+        return z3.RealVal(int(v)), z3.BoolVal(False)
+    if isinstance(v, (int, float)):
+        if isinstance(v, float) and (v != v or v in (float("inf"), float("-inf"))):
+            return z3.RealVal(0), z3.BoolVal(True)
+        f = _F(v)
+        return z3.RealVal(str(f.numerator)) / z3.RealVal(str(f.denominator)), z3.BoolVal(False)
+    if isinstance(v, FV):
+        ls = v.leaves
+        t, nf = float_real(ls[-1][1])
+        for g, x in reversed(ls[:-1]):
+            tx, nx = float_real(x)
+            t = z3.If(g, tx, t)
+            nf = z3.If(g, nx, nf)
+        return t, nf
+    raise Unsupported("no real view of %r" % (type(v).__name__,))
 
 
 def di_str(d):
@@ -545,7 +571,7 @@ def call_host(eng, fn, args, kwargs, st):
             return abs(x)
 
         if isinstance(v, SFloat):
-            raise Unsupported("abs of abstract float")
+            return SFloat(z3.If(v.z >= 0, v.z, -v.z), v.nonfinite)
         return eng.lift_raise(ab, [v], st)
     if fn is builtins.int:
         if not args:
@@ -852,7 +878,36 @@ def smap_method(eng, m, name, args, kwargs, st):
     raise Unsupported("map.%s" % name)
 
 
+def scat_method(eng, s, name, args, kwargs, st):
+    """methods on structured strings decided by their structure; NotImplemented otherwise"""
+    from .interp import GList
+
+    if name == "endswith" and len(args) == 1 and isinstance(args[0], str) and len(args[0]) == 1:
+        r = S.scat_endswith(s, args[0])
+        if r is not None:
+            return r
+    if name == "startswith" and len(args) == 1 and isinstance(args[0], str):
+        r = S.scat_startswith(s, args[0])
+        if r is not None:
+            return r
+    if name == "split" and args and isinstance(args[0], str) and len(args[0]) == 1:
+        maxsplit = args[1] if len(args) > 1 else kwargs.get("maxsplit")
+        if maxsplit is None:
+            r = S.scat_split(s, args[0])
+            if r is not None:
+                return eng.born(GList(r), st)
+        elif maxsplit == 1:
+            r = S.scat_split1(s, args[0])
+            if r is not None:
+                return [r[0], r[1]]
+    return NotImplemented
+
+
 def sstr_method(eng, s, name, args, kwargs, st):
+    if isinstance(s, S.SCat):
+        r = scat_method(eng, s, name, args, kwargs, st)
+        if r is not NotImplemented:
+            return r
     if name == "split":
         if not args or not isinstance(args[0], str) or len(args[0]) != 1:
             raise Unsupported("split of abstract string without a one-character literal separator")
@@ -877,7 +932,14 @@ def sstr_method(eng, s, name, args, kwargs, st):
     if name == "lower":
         return S.lower(s)
     if name == "format":
-        raise Unsupported("format on abstract template")
+        # str.format on an unknown template: a template with unbalanced or out-of-range braces
+        # raises ValueError / IndexError / KeyError, otherwise the result is some string
+        for exc in (ValueError, IndexError, KeyError):
+            if st.decide(z3.Bool(fresh_name("template_raises_%s" % exc.__name__)), "format() of an unknown template"):
+                raise PyRaise(exc, ("format of an unknown template",))
+        from .sym import fresh_str
+
+        return fresh_str("formatted")
     if name == "__eq__":
         return eng.equals(s, args[0], st)
     if name == "replace" and len(args) == 2 and all(isinstance(a, str) for a in args):
